@@ -293,7 +293,7 @@ func (P *Program) RunJobs(specs []JobSpec, workers int, solverKind string) []*Jo
 				if j == nil {
 					return
 				}
-				if sol == nil || solTO != j.Spec.SolverTimeoutMs || n%300 == 299 {
+				if sol == nil || sol.Dead || solTO != j.Spec.SolverTimeoutMs || n%300 == 299 {
 					sol.Close()
 					var err error
 					sol, err = NewSolver(solverKind, j.Spec.SolverTimeoutMs)
